@@ -397,9 +397,7 @@ Plan plan_C09(Rng& r, const std::string& tier) {
 		for (int e = 0; e < ep; ++e) {
 			std::vector<std::string> sa = syms, sb = syms;
 			if (r.chance(1, 4)) sa.push_back("e"); if (r.chance(1, 4)) sb.push_back("f");          // symbols present in one operand only
-			int n = r.chance(1, 5) ? maxst : r.range(1, 5);
-			FA A = gen::gen_fa(r, sa, n, r.chance(1, 4));
-			FA B = r.chance(1, 2) ? gen::derive_fa(r, sb, A, int(r.below(5))) : gen::gen_fa(r, sb, n, r.chance(1, 4));
+			FA A, B; gen::gen_fa_incl_pair(r, sa, sb, maxst, A, B);
 			int a = g.load(A), b = g.load(B);
 			if (r.chance(1, 4)) { g.out.push_back(gen::mk(c, "fa_copy", {a})); ++g.n; }
 			int k = r.range(1, 3);
